@@ -5,7 +5,7 @@
    Auxiliary predicates (Lexer/Proofs.v): [chain a l b] = the spans of l are contiguous from a to b;
    [opener]/[closer] = the two delimiter characters of a token type; [slice s a b] = s[a:b]. *)
 From Coq Require Import String.
-From DJC Require Import Lib.Base Lexer.Model Lexer.Proofs.
+From DJC Require Import Lib.Base Lexer.Model Lexer.Proofs Lexer.Restart.
 
 (* Token spans are non-empty, contiguous, start at 0, end at len(source), and concatenate to the source. *)
 Theorem spans_partition : forall d s toks, parse_template d s = POk toks ->
@@ -68,6 +68,39 @@ Proof.
 Qed.
 Print Assumptions eq_stock_when_no_quote.
 
+(* REUSED BY C10a (the balanced-quote variant).  [closes_as_stockb s t] (decidable, Lexer/Restart.v): the quote-aware
+   scan of _detailed_tag_parser started at t's opener ends exactly at t's end - i.e. the quotes of the tag are
+   balanced, no percent-brace lies inside them and no lone percent sign derails the scan.  If that holds for every
+   quoted block tag of the stock stream, the patched lexer returns the stock stream, token for token (types,
+   contents, positions, line numbers, verbatim handling included).  The proof goes through the restart lemma
+   [Restart.restart_rest]: re-lexing the remainder after a token, with the verbatim state parse_template carries
+   over, yields exactly the rest of the stock stream. *)
+Theorem eq_stock_when_quotes_closed : forall d s,
+  (forall t, In t (django_lex d s) -> is_broken t = true -> closes_as_stockb s t = true) ->
+  parse_template d s = POk (django_lex d s).
+Proof.
+  intros d s H. apply eq_stock_closed. intros t I B. apply closes_as_stockb_iff. apply H; assumption.
+Qed.
+Print Assumptions eq_stock_when_quotes_closed.
+
+(* "differs only by keeping a quoted close", first half: the patched stream can differ from stock only if some
+   quoted block tag b of the stock stream is closed elsewhere by the detailed scan (or the scan fails); all stock
+   tokens before the first such b satisfy the closing condition.  PARTIAL: the statement does not describe the
+   patched stream at and after b (it is `pre ++ fixed :: ...` with fixed starting where b starts - shown by the
+   loop invariant of Lexer/Restart.pt_go_stock, not stated as a theorem); where the scan closes instead is given
+   by closes_at_first_unquoted_end_partial. *)
+Theorem differs_only_at_reclosed_quoted_tag_partial : forall d s,
+  parse_template d s = POk (django_lex d s) \/
+  exists pre b post, django_lex d s = pre ++ b :: post /\ is_broken b = true /\ closes_as_stockb s b = false /\
+    Forall (fun t => is_broken t = true -> closes_as_stockb s t = true) pre.
+Proof.
+  intros d s. destruct (first_difference d s) as [A|[pre [b [post [E [B [N F]]]]]]]; [left; exact A|].
+  right. exists pre, b, post. split; [exact E|]. split; [exact B|]. split.
+  - destruct (closes_as_stockb s b) eqn:X; [|reflexivity]. apply closes_as_stockb_iff in X. contradiction.
+  - eapply Forall_impl; [|exact F]. intros t Ht Bt. apply closes_as_stockb_iff. apply Ht. exact Bt.
+Qed.
+Print Assumptions differs_only_at_reclosed_quoted_tag_partial.
+
 (* The while loop terminates: S(len) iterations of fuel are never used up, and more fuel changes nothing. *)
 Theorem terminates : forall d s,
   parse_template d s <> POutOfFuel /\
@@ -116,3 +149,11 @@ Example no_quote_premise_satisfiable :
   let s := s2n "{% if x %}{{ y }}{# c #}{% endif %}"%string in
   forall t, In t (django_lex true s) -> ttype t = TBlock -> existsb is_quote (tcontents t) = false.
 Proof. vm_compute. intros t [E|[E|[E|[E|[]]]]]; subst; intros; try reflexivity; discriminate. Qed.
+
+(* quoted tags that all close as stock closes them (incl. a quoted verbatim block): premise of
+   eq_stock_when_quotes_closed holds and there are broken tokens *)
+Example quotes_closed_premise_satisfiable :
+  let s := s2n "{% verbatim 'x' %}{% if %}{% endverbatim 'x' %}{% a ""b"" k='c' %}"%string in
+  forallb (fun t => negb (is_broken t) || closes_as_stockb s t) (django_lex true s) = true /\
+  length (filter is_broken (django_lex true s)) = 3.
+Proof. vm_compute. split; reflexivity. Qed.
